@@ -126,6 +126,8 @@ class Verdict:
     # ---- output
     def finish(self, rule, level="model_checking", extra=None):
         wall = time.time() - self.t0
+        if self.evaluations == 0 and not self.violations and not self.inconclusive:
+            self.inconclusive.append("no obligation was discharged (empty selection?) — a vacuous run is never a pass")
         for what, key in sorted(self.known_hits.items()):
             log(f"KNOWN-FINDING: property={self.prop} {what} [{key}]")
         for key, replay, detail in self.violations:
